@@ -670,3 +670,33 @@ pub fn fold_adjacent_family() -> Vec<Node> {
     }
     out
 }
+
+/// A greedy loop over one literal behind a prefix of literals, in front of a continuation that
+/// may need a character back, with a word boundary somewhere (so the VM compiles the
+/// concatenation piece by piece). Common syntax only.
+pub fn literal_loop_family() -> Vec<Node> {
+    let lits = ["a", "b", "-"];
+    let quants = [(0u32, None), (1, None), (2, None), (1, Some(3))];
+    let mut out = vec![];
+    for p1 in lits {
+        for p2 in lits {
+            for l in lits {
+                for (lo, hi) in quants {
+                    let lp = || Repeat(b(Node::lit(l)), lo, hi, Mode::Greedy);
+                    let pre = || vec![Node::lit(p1), Node::lit(p2)];
+                    for cont in [vec![Assert(A::WordB)], vec![Node::lit(l), Assert(A::WordB)], vec![Node::class("\\w"), Assert(A::WordB)], vec![Any(false), Assert(A::NotWordB)], vec![Node::lit(p1), Assert(A::WordB)]] {
+                        let mut v = pre();
+                        v.push(lp());
+                        v.extend(cont.clone());
+                        out.push(Concat(v));
+                        // boundary in front, and the prefix inside a group
+                        let mut w = vec![Assert(A::WordB), Node::lit(p1), Node::group(Node::lit(p2)), lp()];
+                        w.extend(cont);
+                        out.push(Concat(w));
+                    }
+                }
+            }
+        }
+    }
+    out
+}
